@@ -9,6 +9,8 @@ def main(tier):
     n = len(catalogue.builders(tier, SEED)) + len(catalogue.interstitial_extras(tier, SEED))     # + BCC / FCC octahedral + tetrahedral networks
     runner.run(rep, 'Interstitial::contract', I.w_interstitial, [(i, tier, SEED, 'C12') for i in range(n)], 'onsager/OnsagerCalc.py::Interstitial.diffusivity')
 
+    from contracts import degree_c
+    degree_c.run(rep, ['Interstitial.losstensors', 'Interstitial.siteprob', 'Interstitial.ratelist', 'Interstitial.symmratelist'])     # which modes count as relaxation modes may depend on rate ratios only
     from vf import extract
     for rel, q in [('onsager/OnsagerCalc.py', 'Interstitial.losstensors')]:
         try:
